@@ -34,7 +34,9 @@ REL = [(r'(?<=\s)<=(?=\s)', '<'), (r'(?<=\s)<(?=\s)', '<='), (r'(?<=\s)>=(?=\s)'
 WORD = [(r'\.is_some\(\)', '.is_none()'), (r'\.is_none\(\)', '.is_some()'), (r'\.is_ok\(\)', '.is_err()'),
         (r'\.is_err\(\)', '.is_ok()'), (r'\btrue\b', 'false'), (r'\bfalse\b', 'true'),
         (r'\.is_empty\(\)', '.len() == 1'), (r'\bif !', 'if '), (r'\.first\(\)', '.last()'), (r'\.last\(\)', '.first()'),
-        (r'\.min_by\(', '.max_by('), (r'\.materials\b', '.products'), (r'\.products\b', '.materials')]
+        (r'\.min_by\(', '.max_by('), (r'\.materials\b', '.products'), (r'\.products\b', '.materials'),
+        (r'SHA256\b', 'SHA512'), (r'SHA512\b', 'SHA256'), (r'Sha256\b', 'Sha512'), (r'Sha512\b', 'Sha256'),
+        (r'\bMaterials\b', 'Products'), (r'\bProducts\b', 'Materials'), (r'\bSome\(', 'None.or(Some(')]
 LIT = [(r'(?<![\w.])0(?![\w.x])', '1'), (r'(?<![\w.])1(?![\w.])', '2'), (r'(?<![\w.])2(?![\w.])', '3'),
        (r'\+ 1\b', '+ 0'), (r'- 1\b', '- 0'), (r'\+= 1\b', '+= 2'), (r'-= 1\b', '-= 2')]
 DELETABLE = re.compile(r'^\s*(?:[A-Za-z_][\w.]*\.(?:insert|push|push_str|extend|remove|clear|retain)\(.*\);|'
